@@ -25,8 +25,8 @@ TYPESZ = {"u8": 1, "u16": 2, "u32": 4, "u64": 8, "i8": 1, "i16": 2, "i32": 4, "i
 
 def listing(build):
     r = emu.run_tool(build, "ovnievents", [])
-    if r.rc != 0:
-        raise core.HarnessError("ovnievents failed: " + r.err[-300:])
+    if r.rc != 0 or r.sig:
+        return None
     evs = {}
     model = None
     for m in re.finditer(r"identifier \*\*`(.)`\*\*|<pre>(.*?)</pre></a></dt>\s*<dd>(.*?)</dd>", r.out, re.S):
@@ -392,14 +392,20 @@ def main(argv):
     chk = core.Check("C18", "exploration", argv)
     plain = chk.build("plain", ["ovniemu", "ovnidump", "ovnievents"])
     evs = listing(plain)
+    if evs is None:
+        # no listing at all: every code the handlers recognise is unlisted
+        chk.report("listing:ovnievents-fails", "ovnievents exits with a failure: there is no listing to compare with", {})
+        return chk.finish({"evaluations": 1, "distinct_nontrivial": 1, "rule": "ovnievents run once", "samples": []})
     sp = refemu.spec()
     _CTX.update(chk=chk, plain=plain, evs=evs, spec=sp)
     quick = chk.tier == "quick"
-    # 0. listing vs frozen table (set equality, signatures)
-    for mcv in sorted(set(sp["events"]) - set(evs)):
-        chk.report("listing:missing:" + mcv, "event %s of the frozen table is no longer listed by ovnievents" % mcv, {"mcv": mcv})
-    for mcv in sorted(set(evs) - set(sp["events"])):
-        chk.report("listing:new:" + mcv, "ovnievents lists %s which the frozen table does not know" % mcv, {"mcv": mcv})
+    # 0. listing vs frozen table.  A code that appears in or disappears from the
+    # listing is not a violation by itself (the property relates the listing to
+    # the handlers, which parts 1 and 2 decide); it is recorded in the evidence.
+    # A changed signature of a known event is reported: the payload shape is
+    # what the instrumented runtimes write.
+    listing_missing = sorted(set(sp["events"]) - set(evs))
+    listing_new = sorted(set(evs) - set(sp["events"]))
     for mcv in sorted(set(evs) & set(sp["events"])):
         f = sp["events"][mcv]
         if [list(a) for a in evs[mcv]["args"]] != [list(a) for a in f["args"]] or evs[mcv]["jumbo"] != f["jumbo"]:
@@ -484,7 +490,8 @@ def main(argv):
                    "distinct_nontrivial = listed events + distinct unlisted codes probed",
            "samples": [{"listed": len(evs), "probed_codes": len(set(c for c, _ in work))},
                        {"probe": "6TC", "expected": "accepted only with a warning naming it as old"}],
-           "listed_events": len(evs), "listed_judgements": judged, "dump_soup_lines_judged": soup_j,
+           "listed_events": len(evs), "listed_not_in_frozen_table": listing_new, "frozen_table_not_listed": listing_missing,
+           "listed_judgements": judged, "dump_soup_lines_judged": soup_j,
            "dump_soup_unlisted_lines": soup_u, "dump_soup_back_to_back_repeats": soup_r, "probe_runs": nprobe,
            "exhaustive": not quick, "exhaustive_scope": "8 models x 94 x 94 codes minus the listed ones"}
     return chk.finish(cov, assumptions=[
